@@ -3,17 +3,25 @@
 For each: scratch worktree of /repo HEAD + patch (never /repo itself), `./vf check <ID> --tier quick --no-write`
 with VERIF_REPO pointing at it; records in meta.json["recheck"] whether the patch still applies, how many
 VIOLATION lines were printed, and which deductive obligations / bounded checks reported them.
-usage: tools/seedall.py [name-prefix ...]"""
+usage: tools/seedall.py [-jN] [name-prefix ...]"""
 import glob, json, os, re, subprocess, sys, time
 
 ROOT = os.path.dirname(os.path.dirname(os.path.abspath(__file__)))
 os.chdir(ROOT)
 head = subprocess.check_output(["git", "-C", "/repo", "log", "--format=%h", "-1"], text=True).strip()
-rows = []
-for d in sorted(glob.glob("seeded/*/")):
+import concurrent.futures as cf
+
+JOBS = 1
+ARGS = []
+for x in sys.argv[1:]:
+    if x.startswith("-j"):
+        JOBS = int(x[2:] or 1)
+    else:
+        ARGS.append(x)
+
+
+def one(d):
     name = os.path.basename(d.rstrip("/"))
-    if sys.argv[1:] and not any(name.startswith(p) for p in sys.argv[1:]):
-        continue
     mp = os.path.join(d, "meta.json")
     meta = json.load(open(mp))
     pid = meta["property"]
@@ -44,5 +52,11 @@ for d in sorted(glob.glob("seeded/*/")):
         subprocess.run(["git", "-C", "/repo", "worktree", "remove", "--force", wt], capture_output=True)
     meta["recheck"] = rec
     json.dump(meta, open(mp, "w"), indent=1, ensure_ascii=False)
-    rows.append((name, rec))
     print(name, "applies" if rec.get("applies") else "STALE-PATCH", "detected" if rec.get("detected") else "MISSED", "ded:", len(rec.get("deductive_obligations", [])), "bnd:", len(rec.get("bounded_checks", [])), rec.get("other_lines", []), flush=True)
+    return name, rec
+
+
+dirs = [d for d in sorted(glob.glob("seeded/*/")) if not ARGS or any(os.path.basename(d.rstrip("/")).startswith(p) for p in ARGS)]
+with cf.ThreadPoolExecutor(JOBS) as ex:
+    rows = list(ex.map(one, dirs))
+print(sum(1 for _n, r in rows if r.get("detected")), "of", len(rows), "detected;", "missed:", [n for n, r in rows if r.get("applies") and not r.get("detected")], "stale:", [n for n, r in rows if not r.get("applies")])
